@@ -161,6 +161,32 @@ func catalogue(w *world) []*entry {
 		_, err := rsp.ConfirmInitiator(b)
 		return err == nil
 	})
+	// hostile message in the middle of a LIVE session, after which the session goes on with the genuine messages: a
+	// refused message must not leave the object in a state in which the next call panics
+	add("sm2.KeyExchange: ConfirmResponder(hostile sB); ConfirmResponder(genuine)", S("sm2.kx.sB"), func(b []byte) bool {
+		ini, _, rB, sB, ok := sm2kx()
+		if !ok {
+			return false
+		}
+		_, _, err := ini.ConfirmResponder(rB, b)
+		ini.ConfirmResponder(rB, sB)
+		ini.Destroy()
+		return err == nil
+	})
+	add("sm2.KeyExchange: ConfirmInitiator(hostile sA); ConfirmInitiator(genuine)", S("sm2.kx.sA"), func(b []byte) bool {
+		ini, rsp, rB, sB, ok := sm2kx()
+		if !ok {
+			return false
+		}
+		_, sA, err := ini.ConfirmResponder(rB, sB)
+		if err != nil {
+			return false
+		}
+		_, err = rsp.ConfirmInitiator(b)
+		rsp.ConfirmInitiator(sA)
+		rsp.Destroy()
+		return err == nil
+	})
 
 	// ---------------------------------------------------------------- ecdh
 	add("ecdh.P256.NewPublicKey", S("sm2.pub.uncompressed", "sm2.pub.compressed"), func(b []byte) bool {
@@ -745,6 +771,45 @@ func catalogue(w *world) []*entry {
 			return false
 		}
 		_, err := rsp.ConfirmInitiator(b)
+		return err == nil
+	}))
+	// the same histories for SM9: the genuine messages of the seed session are reproduced by the fixed streams
+	slow(add("sm9.KeyExchange: Respond(genuine rA); Respond(hostile); ConfirmInitiator(genuine sA)", S("sm9.kx.rA"), func(b []byte) bool {
+		rsp := w.encUserB.NewKeyExchange(w.uidB, w.uid, 16, true)
+		if _, _, err := rsp.RespondKeyExchange(w.kxRand("sm9.B"), 3, w.get("sm9.kx.rA").data); err != nil {
+			return false
+		}
+		_, _, err := rsp.RespondKeyExchange(w.kxRand("sm9.B2"), 3, b)
+		rsp.ConfirmInitiator(w.get("sm9.kx.sA").data)
+		rsp.Destroy()
+		return err == nil
+	}))
+	slow(add("sm9.KeyExchange: Init; ConfirmResponder(hostile rB); ConfirmResponder(genuine)", S("sm9.kx.rB"), func(b []byte) bool {
+		ini := w.encUser.NewKeyExchange(w.uid, w.uidB, 16, true)
+		if _, err := ini.InitKeyExchange(w.kxRand("sm9.A"), 3); err != nil {
+			return false
+		}
+		_, _, err := ini.ConfirmResponder(b, w.get("sm9.kx.sB").data)
+		ini.ConfirmResponder(w.get("sm9.kx.rB").data, w.get("sm9.kx.sB").data)
+		ini.Destroy()
+		return err == nil
+	}))
+	slow(add("sm9.KeyExchange: Init; ConfirmResponder(hostile sB); ConfirmResponder(genuine)", S("sm9.kx.sB"), func(b []byte) bool {
+		ini := w.encUser.NewKeyExchange(w.uid, w.uidB, 16, true)
+		if _, err := ini.InitKeyExchange(w.kxRand("sm9.A"), 3); err != nil {
+			return false
+		}
+		_, _, err := ini.ConfirmResponder(w.get("sm9.kx.rB").data, b)
+		ini.ConfirmResponder(w.get("sm9.kx.rB").data, w.get("sm9.kx.sB").data)
+		return err == nil
+	}))
+	slow(add("sm9.KeyExchange: Respond; ConfirmInitiator(hostile sA); ConfirmInitiator(genuine)", S("sm9.kx.sA"), func(b []byte) bool {
+		rsp := w.encUserB.NewKeyExchange(w.uidB, w.uid, 16, true)
+		if _, _, err := rsp.RespondKeyExchange(w.kxRand("sm9.B"), 3, w.get("sm9.kx.rA").data); err != nil {
+			return false
+		}
+		_, err := rsp.ConfirmInitiator(b)
+		rsp.ConfirmInitiator(w.get("sm9.kx.sA").data)
 		return err == nil
 	}))
 
